@@ -92,12 +92,12 @@ def install_dispatch_probe():
     @functools.wraps(orig)
     def wrapper(types, lines):
         lines = list(lines)
-        before = env.LOG.total_for_thread()
+        before = env.LOG.track_warnings_for_thread()
         m = orig(types, lines)
         try:
             per_kind = {t.__qualname__: len(m[t]) for t in types}
             _log().append({"probe": "dispatch", "kinds": [t.__qualname__ for t in types], "types": list(types), "lines": lines,
-                           "data": per_kind, "warnings": env.LOG.total_for_thread() - before})
+                           "data": per_kind, "warnings": env.LOG.track_warnings_for_thread() - before})
         except Exception:
             status["dispatch"] = "result not inspectable"
         return m
